@@ -24,6 +24,7 @@ use std::time::Instant;
 use verif_rt::core::{self as rt, Dec, DecKind, Outcome, Rng, RunSpec, Source};
 
 pub const DEFAULT_SEED: u64 = 20260928;
+pub const RNG_SALT: u64 = 0xA5A5_5A5A_1234_5678;
 
 // ---------------------------------------------------------------------------------------------
 // One execution
@@ -153,6 +154,10 @@ pub struct ReplayFile {
     pub stale_sites: Vec<String>,
     #[serde(default)]
     pub markers: Vec<String>,
+    /// Set for crash/hang captures: the execution is reproduced from its PRNG seed instead of a
+    /// recorded decision list (the process died before the list could be saved).
+    #[serde(default)]
+    pub rng_seed: Option<u64>,
     pub case: scen::Case,
     pub picks: String,
 }
@@ -192,7 +197,7 @@ pub fn exec_seed(seed: u64, prop: &str, worker: u64, iter: u64) -> u64 {
 pub fn case_for(prop: &str, thorough: bool, weak: bool, es: u64) -> (scen::Case, Rng) {
     let mut rng = Rng::new(es);
     let case = scen::gen_case(prop, thorough, weak, &mut rng);
-    (case, Rng::new(es ^ 0xA5A5_5A5A_1234_5678))
+    (case, Rng::new(es ^ RNG_SALT))
 }
 
 // ---------------------------------------------------------------------------------------------
@@ -291,10 +296,17 @@ fn cmd_worker(args: &[String]) {
     let known = report::load_known();
     let mut known_seen: BTreeMap<String, u64> = BTreeMap::new();
     let mut new_failures = 0u64;
+    let cur_path = format!("{}/tmp-cur-{}-{}.bin", outdir, prop, worker);
+    let mut cur_file = std::fs::File::create(&cur_path).ok();
     let mut it = 0u64;
     while it < max_execs && t0.elapsed().as_secs_f64() < max_secs {
         let es = exec_seed(seed, prop, worker, it);
         it += 1;
+        if let Some(f) = cur_file.as_mut() {
+            use std::io::{Seek, SeekFrom, Write};
+            let _ = f.seek(SeekFrom::Start(0));
+            let _ = f.write_all(&es.to_le_bytes());
+        }
         let (case, rng) = case_for(prop, thorough, weak, es);
         let r = execute(&case, Source::Random(rng), false);
         s.executions += 1;
@@ -381,6 +393,7 @@ fn cmd_worker(args: &[String]) {
                 n_nonzero: r.trace.iter().filter(|d| d.pick != 0).count(),
                 stale_sites: stale_sites(&r.out),
                 markers: marks::all(),
+                rng_seed: None,
                 case: case.clone(),
                 picks: encode_picks(&r.trace),
             };
@@ -418,6 +431,8 @@ fn cmd_worker(args: &[String]) {
         std::fs::write(&path, bytes).expect("write fingerprint file");
         s.fingerprint_file = path;
     }
+    drop(cur_file);
+    let _ = std::fs::remove_file(&cur_path);
     s.wall_s = t0.elapsed().as_secs_f64();
     s.log_hash = log_hash;
     println!("{}", serde_json::to_string(&s).unwrap());
@@ -428,6 +443,9 @@ fn cmd_worker(args: &[String]) {
 // ---------------------------------------------------------------------------------------------
 
 pub fn replay_file(rf: &ReplayFile, events: bool) -> ExecResult {
+    if let Some(seed) = rf.rng_seed {
+        return execute(&rf.case, Source::Random(Rng::new(seed)), events);
+    }
     let picks = decode_picks(&rf.picks);
     execute(&rf.case, Source::Replay { picks, pos: 0 }, events)
 }
